@@ -140,6 +140,10 @@ STRENGTHENED = {
     'C05-w9-c05-m3': 'reported by C13: `available` sampled while connect attempts are in progress',
     'C10-w9-c10-m1': 'record payloads that are not valid UTF-8 in every AdbSyncOp row',
     'C11-w9-c11-m1': 'reported by C10: AdbSyncOp rows replayed on a transport that answers silence with empty reads (not with its own timeout error)',
+    'C04-w10-c04-m1': 'reported by C16 and C10 as they stood (async only: a device WRITE that overtakes its OKAY is no longer acknowledged)',
+    'C04-w10-c04-m2': 'sessions in which the device hands the same remote id to one stream after the other',
+    'C08-w10-c08-m1': 'reported by C16 and C10 as they stood (sync only: early DATA before the OKAY of the RECV request)',
+    'C12-w10-c12-m1': 'fault enumeration under fragmented reads: a fault after part of a header or payload was read, then close / connect',
     'C14-w9-c14-m1': 'exploration with an OPEN the device refuses, overlapped by other threads\' opens, everyone opening again',
     'C14-w9-c14-m3': 'line-level schedules with a call that raises inside _open (unusable timeouts) next to other opens',
     'C17-w9-c17-m2': 'signers pickled into a fresh child interpreter, then asked to sign',
